@@ -101,6 +101,9 @@ fn resolve(req: &Value) -> Value {
     let accept = opt_str(req, "accept_language");
     let parent = opt_str(req, "parent").map(|s| locale_of(&s));
     let initial = opt_str(req, "initial").map(|s| locale_of(&s));
+    // kind "fn" only: a context already provided under the calling owner, currently showing this locale
+    // (`resolve_locale*` is documented to depend on the request alone)
+    let ambient = opt_str(req, "ambient").map(|s| locale_of(&s));
     let log: Arc<Mutex<Vec<String>>> = Default::default();
 
     let owner = Owner::new();
@@ -125,9 +128,57 @@ fn resolve(req: &Value) -> Value {
                 }
                 if kind == "root" {
                     init_i18n_context_with_options(opts).get_locale_untracked()
+                } else if let Some(a) = ambient {
+                    let child = Owner::current().unwrap().child();
+                    let r = child.with(|| {
+                        let actx = init_i18n_context_with_options(
+                            I18nContextOptions::<Locale>::default().enable_cookie(false).ssr_lang_header_getter(lang_opts(None)),
+                        );
+                        actx.set_locale(a);
+                        provide_context(actx);
+                        leptos_i18n::locale::resolve_locale_with_options(opts)
+                    });
+                    std::mem::forget(child);
+                    r
                 } else {
                     leptos_i18n::locale::resolve_locale_with_options(opts)
                 }
+            }
+            // the generated `<I18nContextProvider>` component with its documented props; the children read `use_i18n()`
+            "component" => {
+                let set_dir = req.get("set_dir").and_then(|b| b.as_bool());
+                let set_lang = req.get("set_lang").and_then(|b| b.as_bool());
+                let child = Owner::current().unwrap().child();
+                let r = child.with(|| {
+                    let slot: Arc<Mutex<Option<Locale>>> = Default::default();
+                    let slot2 = slot.clone();
+                    let ck = cookie_opts::<Locale>(cookie_header.clone(), log.clone());
+                    let lh = lang_opts(accept.clone());
+                    let name: Cow<'static, str> = Cow::Owned(eff_name.clone());
+                    macro_rules! provider {
+                        ($($prop:ident = $val:expr),*) => {
+                            view! {
+                                <I18nContextProvider enable_cookie=enable_cookie cookie_name=name cookie_options=ck ssr_lang_header_getter=lh $($prop=$val)*>
+                                    {
+                                        *slot2.lock().unwrap() = Some(use_i18n().get_locale_untracked());
+                                        ()
+                                    }
+                                </I18nContextProvider>
+                            }.into_any()
+                        };
+                    }
+                    let view = match (set_dir, set_lang) {
+                        (None, None) => provider!(),
+                        (Some(d), None) => provider!(set_dir_attr_on_html = d),
+                        (None, Some(l)) => provider!(set_lang_attr_on_html = l),
+                        (Some(d), Some(l)) => provider!(set_dir_attr_on_html = d, set_lang_attr_on_html = l),
+                    };
+                    let l = slot.lock().unwrap().take().expect("children of I18nContextProvider did not run");
+                    std::mem::forget(view);
+                    l
+                });
+                std::mem::forget(child);
+                r
             }
             "sub" => {
                 let child = Owner::current().unwrap().child();
